@@ -44,7 +44,7 @@ def main():
     hashseeds = a.hashseeds.split(',') if a.hashseeds else (['0'] if a.tier == 'quick' else ['0', '1', '2'])
     evs, rc, alllines = [], 0, []
     for hs in hashseeds:
-        fd, out = tempfile.mkstemp(prefix='verif_' + pid + '_', suffix='.json', dir=os.path.join(VERIF, 'evidence'))
+        fd, out = tempfile.mkstemp(prefix='verif_' + pid + '_', suffix='.json', dir=os.environ.get('VERIF_SCRATCH') or os.path.join(VERIF, 'evidence'))
         os.close(fd)
         try:
             env = dict(os.environ, PYTHONHASHSEED=hs, OMP_NUM_THREADS='1', OPENBLAS_NUM_THREADS='1',
@@ -65,8 +65,10 @@ def main():
             if l not in alllines: alllines.append(l)
     from mc import core
     ev = core.merge_evidence(evs)
-    os.makedirs(os.path.join(VERIF, 'evidence'), exist_ok=True)
-    with open(os.path.join(VERIF, 'evidence', pid + '.json'), 'w') as f:
+    # seeded-change trials (seeded/try_wt.sh) set VERIF_SCRATCH so that evidence/ only ever holds runs against /repo
+    evdir = os.environ.get('VERIF_SCRATCH') or os.path.join(VERIF, 'evidence')
+    os.makedirs(evdir, exist_ok=True)
+    with open(os.path.join(evdir, pid + '.json'), 'w') as f:
         json.dump(ev, f, indent=1, sort_keys=True)
     for l in alllines: print(l)
     c = ev['coverage']
